@@ -69,6 +69,10 @@ def coeff(rng, q=None):
         return max(1, min(v, T34 - 1))
     if k < 0.92:
         v = rng.choice([2 ** rng.randint(1, 112), 5 ** rng.randint(1, 48)]); return v if v < T34 else 1
+    if k < 0.95:      # low 64-bit word aliases a power of ten (or 10^j - 1, 5 * 10^j) while the high word is not zero
+        j = rng.randint(0, 19); low = rng.choice([10 ** j, 10 ** j - 1, 5 * 10 ** j, 0, (1 << 64) - 1]) % (1 << 64)
+        v = (rng.randint(1, 542101086242752) << 64) + low
+        return v if 0 < v < T34 else T33
     z = rng.randint(0, q - 1); return rng.randint(10 ** (q - 1 - z), 10 ** (q - z) - 1) * 10 ** z
 
 
@@ -91,8 +95,10 @@ def noncanon_small(rng):
     return (rng.randint(0, 1) << 127) | ((expo(rng) + BIAS) << 113) | rng.randint(T34, (1 << 113) - 1)
 
 
-def noncanon_large(rng):
-    return (rng.randint(0, 1) << 127) | (3 << 125) | (rng.randint(0, 2) << 123) | rng.getrandbits(123)
+def noncanon_large(rng, e=None):
+    """large-coefficient form (G0G1 = 11, not Inf/NaN): value zero, exponent field two bits lower; e = wanted exponent (or random)"""
+    if e is None: return (rng.randint(0, 1) << 127) | (3 << 125) | (rng.randint(0, 2) << 123) | rng.getrandbits(123)
+    return (rng.randint(0, 1) << 127) | (3 << 125) | ((e + BIAS) << 111) | rng.getrandbits(111)
 
 
 def infinity(rng):
